@@ -943,12 +943,29 @@ fn shape_tables(out: &mut String) {
 
 
 // ---------- bodies of the generated functions (text pin of the hand-written model) ----------
+/// which property's hand-written model describes a generated function
+fn scope_of(file: &str, key: &str, name: &str) -> &'static str {
+    let cap = ["new", "with_capacity", "capacity", "reserve", "reserve_exact", "shrink_to_fit"];
+    let idx = ["get", "get_unchecked", "index", "get_mut", "get_unchecked_mut", "index_mut"];
+    let ptrs = ["as_ptr", "as_mut_ptr", "from_raw_parts", "from_raw_parts_mut"];
+    let sorts = ["__private_apply_permutation", "sort_by", "sort_by_key", "sort"];
+    if file == "ptr" || ptrs.contains(&name) { "C10" }
+    else if idx.contains(&name) { "C04" }
+    else if file == "refs" || key == "PVec<Extend<PRef<'a>>>::extend" { "C15" }
+    else if name == "to_vec" || name == "from_iter" || key == "PVec<Extend<P>>::extend" { "C01" }
+    else if file == "iter" { "C06" }
+    else if sorts.contains(&name) { "C07" }
+    else if file == "vec" && cap.contains(&name) { "C12" }
+    else if file == "vec" && ["as_slice", "as_mut_slice", "slice", "slice_mut"].contains(&name) { "C05" }
+    else if file == "vec" { "C01" }
+    else { "C05" }
+}
 fn bodies(out: &mut String) {
     use std::fmt::Write;
     let src = "#[soa_derive(Clone)] pub struct P { pub a: A, #[nested_soa] pub n: N, pub c: C }";
     let ast: syn::DeriveInput = syn::parse_str(src).expect("parse");
     let input = input::Input::new(ast);
-    let mut rows: Vec<String> = vec![];
+    let mut rows: std::collections::BTreeMap<&'static str, Vec<String>> = Default::default();
     let mut seen: std::collections::HashMap<String, usize> = Default::default();
     // the index layer and the trait layer are translated (Index.lean, Generic.lean); here: everything else
     for (file, tstream) in [("vec", vec::derive(&input)), ("refs", refs::derive(&input)), ("ptr", ptr::derive(&input)), ("slice", slice::derive(&input)),
@@ -964,7 +981,8 @@ fn bodies(out: &mut String) {
                         let n = seen.entry(key.clone()).or_insert(0); *n += 1;
                         if *n > 1 { key = format!("{}#{}", key, n); }
                         let text = format!("{} {}", flat(fun.sig.to_token_stream()), flat(fun.block.to_token_stream()));
-                        rows.push(format!("  ({}, {}, {}, {})", lean_str(file), lean_str(&key), lean_str(&fun.sig.ident.to_string()), lean_str(&text)));
+                        let scope = scope_of(file, &key, &fun.sig.ident.to_string());
+                        rows.entry(scope).or_default().push(format!("  ({}, {})", lean_str(&key), lean_str(&text)));
                     }
                 }
             }
@@ -972,8 +990,11 @@ fn bodies(out: &mut String) {
     }
     writeln!(out, "-- generated by /verif/extract from the generator sources in /repo/soa-derive-internal/src (schematic struct P {{ a: A, #[nested_soa] n: N, c: C }}, with the Clone API); do not edit").unwrap();
     writeln!(out, "namespace Soa.Extracted\n").unwrap();
-    writeln!(out, "/-- (generator file, qualified function, function name, signature and body as one token per word) of every generated function outside the index and trait layers -/").unwrap();
-    writeln!(out, "def bodies : List (String × String × String × String) := [\n{}]\n\nend Soa.Extracted", rows.join(",\n")).unwrap();
+    writeln!(out, "/-! (function, signature and body as one token per word) of every generated function outside the index and trait layers,\n    grouped by the property whose hand-written model describes it -/\n").unwrap();
+    for (scope, v) in &rows {
+        writeln!(out, "def bodies_{} : List (String × String) := [\n{}]\n", scope, v.join(",\n")).unwrap();
+    }
+    writeln!(out, "end Soa.Extracted").unwrap();
 }
 
 /// write only when the content changed, so that `lake build` re-checks nothing on an unchanged tree
